@@ -229,6 +229,12 @@ def _const_discr(F, e):
     e = deep_strip(e)
     if e[0] == "discr":
         b = deep_strip(e[1])
+        for _ in range(4):
+            # `Struct{a, b}.field` -> the element (a value parked in a struct literal keeps its identity)
+            if b[0] == "field" and deep_strip(b[1])[0] == "agg" and deep_strip(b[1])[1][0] in ("adt", "tuple") and b[3] is not None and b[3] < len(deep_strip(b[1])[2]):
+                b = deep_strip(deep_strip(b[1])[2][b[3]])
+            else:
+                break
         if b[0] == "agg" and b[1][0] == "adt" and len(b[1]) > 4 and b[1][4] is not None:
             return b[1][4]
         if b[0] == "const" and b[4] is None and len(b) > 6 and isinstance(b[6], str) and b[6].endswith("::None") and (b[3] or "").startswith("core::option::Option<"):
